@@ -4,22 +4,26 @@ From Coq Require Import ZArith NArith Bool List.
 From PcoreV Require Import Model.Base Model.Keys.
 Import ListNotations.
 
-(* bit j of the row = x.Equals(pool[j]) *)
-Definition row_of (x : value) (pool : list value) : N :=
-  fold_right (fun y acc => (N.double acc + (if veq x y then 1 else 0))%N) 0%N pool.
+(* the positions j with x.Equals(pool[j]) *)
+Fixpoint eq_positions_from (x : value) (pool : list value) (j : N) : list N :=
+  match pool with
+  | [] => []
+  | y :: pool' => if veq x y then j :: eq_positions_from x pool' (N.succ j) else eq_positions_from x pool' (N.succ j)
+  end.
+Definition row_of (x : value) (pool : list value) : list N := eq_positions_from x pool 0%N.
 
-(* a case: index of the value in the pool, the observed px.ToKey (None: InvalidHashKey), the observed
-   Equals answers against every value of the pool.  The value must satisfy the representation
+(* a case: index of the value in the pool, the observed px.ToKey (None: InvalidHashKey), the positions
+   of the pool values that the value was observed to be Equal to.  The value must satisfy the representation
    invariant that the theorems assume. *)
-Definition c07_value_check (pool : list value) (c : nat * option (list N) * N) : bool :=
+Definition c07_value_check (pool : list value) (c : nat * option (list N) * list N) : bool :=
   match c with
   | (k, okey, row) =>
       match nth_error pool k with
       | None => false
-      | Some x => wf_value x && option_eqb str_eqb (to_key x) okey && (row_of x pool =? row)%N
+      | Some x => wf_value x && option_eqb str_eqb (to_key x) okey && list_eqb N.eqb (row_of x pool) row
       end
   end.
-Definition c07_value_mismatches (pool : list value) (cs : list (nat * option (list N) * N)) : list N :=
+Definition c07_value_mismatches (pool : list value) (cs : list (nat * option (list N) * list N)) : list N :=
   failing (c07_value_check pool) cs.
 
 (* a case: a hash whose values are the positions 0, 1, ..., a probe, the observed Get (the integer
